@@ -99,6 +99,13 @@ CHECKS.update({
    technique="Lean 4 decide over a finite specification table enumerated from the regenerated grammar + exhaustive probe correspondence with the real compiler",
    ref="DESIGN.md section 4, C07"),
 })
+CHECKS.update({
+ "C15": dict(
+   text="Proof: on the lowering model every statement yields exactly one effect in source order, expression statements carry their temporaries instead (compileStmts_length, compileStmtsH_count, for ALL statement lists), and the final sequence drops nothing but EMPTY() members (mkSeq_keeps); the list of grammar productions that reach the transformer WITHOUT a callback (raw Tree objects, which no Sequence keeps) is computed from the REGENERATED grammar and callback tables and frozen by kernel decide (no_callback_rules, statement_rules_have_callbacks) — a new production without callback or a removed callback breaks it. The full statement (nothing dropped) is refuted on the unchanged tree: break/continue/goto, labelled statements and comma statements vanish (listed known findings, by construct). Tie/search: every construct the property enumerates (+ chained assignments, hybrids, controls) placed at 6 statement and 6 expression positions around supported code, both layouts, compiled by the real compiler: a must-raise construct that compiles is a violation; a construct that compiles must have every write it performs in the tree Lean denotes from the RAW text (reachable from instruction_sequence) and no unreachable effect declaration.",
+   note=TB + "the supported dialect's complete representation is carried by the tree-equality ties of C05/C06 (real output = lowering model), not re-checked here; constructs beyond the property's enumeration are covered only through the frozen no-callback table.",
+   technique="Lean 4 lemmas on the lowering model + decide over regenerated grammar x callback tables + construct-placement correspondence with the real compiler, outputs denoted by Lean",
+   ref="DESIGN.md section 4, C15"),
+})
 NOT_YET = {}
 ALL = [f"C{i:02d}" for i in range(1, 21)]
 def main():
